@@ -136,6 +136,12 @@ const SSRC_CONTEXT_HIGH_WATERMARK: usize = 32;
 /// certainly ended (or rotated), so dropping its ROC state is safe.
 const SSRC_INACTIVITY_EVICT: std::time::Duration = std::time::Duration::from_secs(60);
 
+/// Hard upper bound on live receive contexts. A keyed peer that uses a fresh
+/// SSRC for every packet would otherwise make the receiver keep one context
+/// (keys, cipher schedules) per packet until the idle eviction catches up.
+/// Far above any real SSRC count (simulcast, RTX, FEC, re-INVITE churn).
+const MAX_RX_CONTEXTS: usize = 1024;
+
 impl SrtpSession {
     pub fn new(
         profile: SrtpProfile,
@@ -176,6 +182,7 @@ impl SrtpSession {
 
     pub fn unprotect_rtp(&mut self, packet: SrtpPacket) -> SrtpResult<RtpPacket> {
         let ssrc = packet.header.ssrc;
+        self.refuse_new_rx_context_if_full(ssrc)?;
         // Only an authenticated packet may create, refresh or evict receive
         // contexts: forged SSRCs must not be able to push the table over the
         // high-water mark and age a genuine context (and its ROC) out of it.
@@ -225,6 +232,7 @@ impl SrtpSession {
         }
         let ssrc = u32::from_be_bytes([packet[4], packet[5], packet[6], packet[7]]);
 
+        self.refuse_new_rx_context_if_full(ssrc)?;
         // As in `unprotect_rtp`: the table changes only after authentication.
         let mut fresh = None;
         let ctx = match self.rx_contexts.get_mut(&ssrc) {
@@ -241,6 +249,24 @@ impl SrtpSession {
         self.evict_stale_rx(ssrc);
         if let Some(ctx) = fresh {
             self.rx_contexts.insert(ssrc, ctx);
+        }
+        Ok(())
+    }
+
+    /// A packet for an unknown SSRC is refused (nothing is touched) while
+    /// `MAX_RX_CONTEXTS` contexts are live, i.e. would survive the idle eviction.
+    fn refuse_new_rx_context_if_full(&self, ssrc: u32) -> SrtpResult<()> {
+        if self.rx_contexts.len() < MAX_RX_CONTEXTS || self.rx_contexts.contains_key(&ssrc) {
+            return Ok(());
+        }
+        let now = std::time::Instant::now();
+        let live = self
+            .rx_contexts
+            .values()
+            .filter(|c| now.duration_since(c.last_used) < SSRC_INACTIVITY_EVICT)
+            .count();
+        if live >= MAX_RX_CONTEXTS {
+            return Err(SrtpError::Internal("too many SRTP receive contexts".to_string()));
         }
         Ok(())
     }
